@@ -12,6 +12,9 @@ import XzVerif.Gen.Kernels
 import XzVerif.Gen.KernelsGrid
 import XzVerif.Lemmas.Kernels
 import XzVerif.Lemmas.C02Vli
+import XzVerif.Lemmas.C02Dict
+import XzVerif.Lemmas.C02Index
+import XzVerif.Lemmas.IndexSpecL
 import XzVerif.Model.Container
 import XzVerif.Model.IndexSpec
 import XzVerif.Model.Memusage
@@ -19,6 +22,10 @@ import XzVerif.Model.MemusageBuild
 import XzVerif.Model.Memlimit
 import XzVerif.Model.Lzma
 import XzVerif.Model.LzmaEnc
+import XzVerif.Model.FileInfo
+import XzVerif.Model.LzDict
+import XzVerif.Model.XzAdjust
+import XzVerif.Model.Lzip
 import XzVerif.Gen.C16
 
 namespace XzVerif.Kernels
@@ -426,6 +433,11 @@ theorem lzip_dict_size_eq : ∀ ds, ds < 256 → Kernels.lzip_dict_size ds
     = match Memlimit.lzipDict ds with | none => (10, 0, 0, 0, 0) | some d => (0, d, 3, 0, 2) := by
   decide +kernel
 
+/-- … and the C16 model (`Lzip.dictSizeOfCode`, the one the .lz theorems of C16 are stated over; lc/lp/pb as `Lzip.lzipOpts`) -/
+theorem lzip_dict_size_eq_c16 : ∀ ds, ds < 256 → Kernels.lzip_dict_size ds
+    = match Lzip.dictSizeOfCode ds with | none => (10, 0, 0, 0, 0) | some d => (0, d, 3, 0, 2) := by
+  decide +kernel
+
 /-- Cross-check of the fragment against the COMPILED decoder: the table Gen/C16.lean obtains by running `lzip_decode`
     on all 256 dictionary-size bytes (0 = rejected, else dictionary size + 1). -/
 theorem lzip_dict_size_matches_running_code :
@@ -474,5 +486,379 @@ theorem get_dist_slot_eq (d : Nat) (h : d < U32) :
   rw [h1]
   unfold Container.getDistSlot LzmaEnc.getDistSlot LzmaEnc.log2
   simp only [Nat.and_one_is_mod]
+
+/-! ## LZMA2 dictionary-size byte, encoder side (lzma2_encoder.c) — C02 -/
+
+theorem smear_values_facts : ∀ s ∈ Container.dictSmearValues, s ≤ 4294967295 ∧
+    (s ≠ 4294967295 → 24 ≤ Container.getDistSlot (s + 1) ∧ Container.getDistSlot (s + 1) < 280) := by decide +kernel
+
+/-- `lzma_lzma2_props_encode(options, out)`: returns LZMA_OK and stores the model's dictionary-size byte, for every
+    `uint32_t` `dict_size` (the `d |= d >> k` smear is the model's `dictSmear`; `get_dist_slot` is the translated table version). -/
+theorem lzma2_props_encode_eq (d : Nat) (h : d < U32) :
+    Kernels.lzma_lzma2_props_encode d = (0, Container.lzma2DictEncode d) := by
+  unfold U32 at h
+  unfold Kernels.lzma_lzma2_props_encode Container.lzma2DictEncode Container.DICT_SIZE_MIN Container.UINT32_MAX
+  dsimp only
+  have e0 : (if d > 4096 then d else 4096) = (if d < 4096 then 4096 else d) := by split <;> split <;> omega
+  have e1 : ((if d < 4096 then 4096 else d) + 4294967296 - 1) % 4294967296 = (if d < 4096 then 4096 else d) - 1 := by split <;> omega
+  rw [e0, e1]
+  generalize hx : (if d < 4096 then 4096 else d) - 1 = x
+  have hx1 : x < 4294967296 ∧ 4095 ≤ x := by split at hx <;> omega
+  obtain ⟨G, hG⟩ : ∃ G, G = Container.dictSmear x := ⟨_, rfl⟩
+  have hmem := (Container.dictSmear_mem x hx1.1 hx1.2).1
+  rw [← hG] at hmem
+  have hf := smear_values_facts G hmem
+  simp only [Container.dictSmear, Nat.shiftRight_eq_div_pow, Nat.reducePow] at hG ⊢
+  rw [← hG]
+  by_cases hm : G = 4294967295
+  · rw [if_pos hm, if_pos hm]
+  · have hf2 := hf.2 hm
+    have e2 : (G + 1) % 4294967296 = G + 1 := Nat.mod_eq_of_lt (by omega)
+    rw [e2, (get_dist_slot_eq (G + 1) (by unfold U32; omega)).1]
+    simp only [hm, if_false]
+    rw [Prod.mk.injEq]
+    exact ⟨rfl, by omega⟩
+
+/-! ## Stream Flags comparison and the Backward Size field (stream_flags_common.c, stream_flags_encoder.c, stream_flags_decoder.c) — C02 -/
+
+/-- `lzma_stream_flags_compare(a, b)` for all member values (`backward_size` = LZMA_VLI_UNKNOWN is the model's `none`) -/
+theorem stream_flags_compare_eq (abs ac av bbs bc bv : Nat) :
+    Kernels.lzma_stream_flags_compare abs ac av bbs bc bv
+      = (Container.streamFlagsCompare ⟨av, ac⟩ (optVli abs) ⟨bv, bc⟩ (optVli bbs)).toNat := by
+  unfold Kernels.lzma_stream_flags_compare Container.streamFlagsCompare optVli Container.CHECK_ID_MAX
+  rw [is_backward_size_valid_eq, is_backward_size_valid_eq]
+  by_cases h1 : abs = 18446744073709551615 <;> by_cases h2 : bbs = 18446744073709551615 <;>
+    simp only [h1, h2, if_true, if_false, ne_eq, not_true_eq_false, not_false_eq_true, and_true, and_false, false_and, true_and] <;>
+    (repeat' split) <;> simp_all [Ret.toNat]
+
+/-- the value `lzma_stream_footer_encode` stores for a valid Backward Size: `backward_size / 4 - 1`, a 32-bit value -/
+theorem footer_backward_size_field_eq (bs : Nat) (h : Container.isBackwardSizeValid bs = true) :
+    Kernels.footer_backward_size_field bs = bs / 4 - 1 := by
+  unfold Container.isBackwardSizeValid Container.BACKWARD_SIZE_MIN Container.BACKWARD_SIZE_MAX at h
+  simp only [decide_eq_true_eq] at h
+  unfold Kernels.footer_backward_size_field
+  omega
+
+/-- the Backward Size `lzma_stream_footer_decode` computes from the stored 32-bit field: `(field + 1) * 4` -/
+theorem footer_backward_size_of_field_eq (f : Nat) (h : f < U32) :
+    Kernels.footer_backward_size_of_field f = (0, (f + 1) * 4) := by
+  unfold U32 at h
+  unfold Kernels.footer_backward_size_of_field
+  simp only [Prod.mk.injEq, true_and]
+  omega
+
+/-! ## Block sizes, continued (block_util.c, block_header_encoder.c) — C02 -/
+
+/-- `lzma_block_compressed_size(block, unpadded_size)`: (lzma_ret, `block->compressed_size` afterwards) -/
+theorem block_compressed_size_eq (up check cs hs ver : Nat) (hcs : cs < U64) (hhs : hs < U32) (hup : up < U64) :
+    Kernels.lzma_block_compressed_size up check cs hs ver
+      = match Container.blockCompressedSize ver hs check (optVli cs) up with
+        | .error e => (e.toNat, cs)
+        | .ok v => (0, v) := by
+  unfold Kernels.lzma_block_compressed_size Container.blockCompressedSize
+  rw [block_unpadded_size_eq check cs hs ver hcs hhs, check_size_eq]
+  unfold U64 at hcs hup; unfold U32 at hhs
+  by_cases h0 : Container.blockUnpaddedSize ver hs check (optVli cs) = 0
+  · simp [h0, Ret.toNat]
+  · have hck : check ≤ 15 := by
+      unfold Container.blockUnpaddedSize Container.CHECK_ID_MAX at h0
+      by_cases hc : check > 15
+      · simp [hc] at h0
+      · omega
+    have hhs1 : hs ≤ 1024 := by
+      unfold Container.blockUnpaddedSize Container.BLOCK_HEADER_SIZE_MAX at h0
+      by_cases hc : hs > 1024
+      · simp [hc] at h0
+      · omega
+    have hc := check_size_le check hck
+    rw [check_size_eq] at hc
+    generalize Container.checkSize check = k at *
+    simp only [h0, if_false]
+    try dsimp only
+    have e1 : (hs + k) % 4294967296 = hs + k := by omega
+    rw [e1]
+    by_cases h1 : up ≤ hs + k
+    · simp [h1, Ret.toNat]
+    · have e2 : (up + 18446744073709551616 - (hs + k)) % 18446744073709551616 = up - (hs + k) := by omega
+      simp only [h1, if_false, e2, optVli]
+      by_cases hu : cs = 18446744073709551615
+      · simp [hu]
+      · simp only [hu, if_false, ne_eq, not_false_eq_true, true_and]
+        by_cases h2 : cs = up - (hs + k)
+        · simp [h2]
+        · simp [h2, Ret.toNat]
+
+/-- `lzma_block_header_size`, the part before the filter loop: Block Header Size + Block Flags + CRC32 + the two optional
+    VLI fields; LZMA_PROG_ERROR (11, encoded 12) exactly where the model's `sizeOptVli` fails. -/
+theorem block_header_size_fixed_eq (cs us : Nat) :
+    (Kernels.block_header_size_fixed cs us).1
+      = (match Container.sizeOptVli true (optVli cs), Container.sizeOptVli false (optVli us) with
+         | .ok _, .ok _ => 0
+         | _, _ => 12)
+    ∧ ∀ a b, Container.sizeOptVli true (optVli cs) = .ok a → Container.sizeOptVli false (optVli us) = .ok b →
+        (Kernels.block_header_size_fixed cs us).2 = 1 + 1 + 4 + a + b := by
+  have ha := vli_size_le cs
+  have hb := vli_size_le us
+  unfold Kernels.block_header_size_fixed Container.sizeOptVli optVli
+  rw [vli_size_eq_container, vli_size_eq_container] at *
+  by_cases hc : cs = 18446744073709551615 <;> by_cases hu : us = 18446744073709551615 <;>
+    simp only [hc, hu, if_true, if_false, ne_eq, not_true_eq_false, not_false_eq_true, Bool.false_eq_true, false_and, or_false, true_and] <;>
+    (try dsimp only) <;>
+    (repeat' split) <;> simp_all <;> omega
+
+/-- … and its last step: `header_size = (size + 3) & ~3` -/
+theorem block_header_size_pad_eq (size : Nat) (h : size + 3 < U32) :
+    Kernels.block_header_size_pad size = (0, (size + 3) / 4 * 4) := by
+  unfold U32 at h
+  unfold Kernels.block_header_size_pad
+  simp only [Prod.mk.injEq, true_and]
+  omega
+
+/-! ## Index Padding, index_hash.c size rules — C13 -/
+
+/-- `lzma_index_padding_size(i)` as a function of `i->record_count`, `i->index_list_size` -/
+theorem index_padding_size_eq (listSize count : Nat) (h : listSize + 14 < U64) :
+    Kernels.lzma_index_padding_size listSize count = Container.indexPaddingSize count listSize
+    ∧ Kernels.lzma_index_padding_size listSize count = Index.indexPadding count listSize := by
+  unfold Kernels.lzma_index_padding_size Container.indexPaddingSize Index.indexPadding
+  have e := index_size_unpadded_eq count listSize h
+  have hl := index_size_unpadded_le count listSize h
+  rw [← e.1, ← e.2]
+  unfold U64 at h
+  generalize Kernels.index_size_unpadded count listSize = u at *
+  omega
+
+/-- `lzma_index_hash_size` -/
+theorem index_hash_size_eq (hst : Index.HashSt) (h : hst.listSize + 17 < U64) :
+    Kernels.lzma_index_hash_size hst.count hst.listSize = hst.size := by
+  unfold Kernels.lzma_index_hash_size Index.HashSt.size
+  exact (index_size_eq _ _ h).2
+
+/-- `hash_append` (the size bookkeeping of `lzma_index_hash_append`): the four running totals, as in the model's
+    `HashSt.append`, as long as no 64-bit sum wraps (each total is checked against LZMA_VLI_MAX right afterwards). -/
+theorem index_hash_append_sizes_eq (unp unc bsz cnt lsz usz : Nat)
+    (h1 : bsz + unp + 3 < U64) (h2 : usz + unc < U64) (h3 : lsz + 18 < U64) (h4 : cnt + 1 < U64) :
+    Kernels.index_hash_append_sizes unp unc bsz cnt lsz usz
+      = (0, bsz + Index.vliCeil4 unp, cnt + 1, lsz + Index.vliSize unp + Index.vliSize unc, usz + unc) := by
+  unfold U64 at *
+  unfold Kernels.index_hash_append_sizes
+  have hc := (vli_ceil4_eq unp (by unfold U64; omega)).2
+  have hcl : Kernels.vli_ceil4 unp ≤ unp + 3 := by unfold Kernels.vli_ceil4; omega
+  have ha := vli_size_le unp
+  have hb := vli_size_le unc
+  rw [← hc, ← vli_size_eq_index, ← vli_size_eq_index]
+  generalize Kernels.vli_ceil4 unp = c at *
+  generalize Kernels.lzma_vli_size unp = a at *
+  generalize Kernels.lzma_vli_size unc = b at *
+  simp only [Prod.mk.injEq, true_and]
+  omega
+
+/-- the limit test of `lzma_index_hash_append` after the totals were updated: LZMA_DATA_ERROR (9, encoded 10) exactly
+    where the model's `HashSt.append` answers `dataError` -/
+theorem index_hash_append_limits_eq (bsz cnt lsz usz : Nat) (h1 : bsz + lsz + 41 < U64) :
+    Kernels.index_hash_append_limits bsz cnt lsz usz
+      = if bsz > Index.VLI_MAX ∨ usz > Index.VLI_MAX ∨ Index.indexSize cnt lsz > Index.BACKWARD_SIZE_MAX
+            ∨ Index.indexStreamSize bsz cnt lsz > Index.VLI_MAX then 10 else 0 := by
+  unfold Kernels.index_hash_append_limits Index.VLI_MAX Index.BACKWARD_SIZE_MAX
+  rw [(index_size_eq cnt lsz (by unfold U64 at *; omega)).2, (index_stream_size_eq bsz cnt lsz h1).2]
+  simp only [or_assoc]
+
+/-! ## LZ decoder dictionary allocation, LZ encoder buffer sizes (lz_decoder.c, lz_encoder.c) — C03, C09 -/
+
+/-- `lzma_lz_decoder_init`: minimum dictionary, rounding to a multiple of 16, `alloc_size`: the C03 dictionary model
+    (`LzDict.roundDictSize`, `LzDict.allocSize`) and the C09 allocation model (`Memusage.lzDictAllocSize`, which also
+    counts the LZ_DICT_EXTRA bytes added in the `lzma_alloc` call), for every 32-bit dictionary size. -/
+theorem lz_decoder_dict_alloc_eq (d : Nat) (h : d < U32) :
+    Kernels.lz_decoder_dict_alloc d = (0, LzDict.roundDictSize d, LzDict.allocSize d)
+    ∧ (Kernels.lz_decoder_dict_alloc d).2.2 + Memusage.thisBuild.lzDictExtra = Memusage.lzDictAllocSize Memusage.thisBuild d := by
+  unfold U32 at h
+  have e1 : Kernels.lz_decoder_dict_alloc d = (0, LzDict.roundDictSize d, LzDict.allocSize d) := by
+    unfold Kernels.lz_decoder_dict_alloc LzDict.allocSize LzDict.roundDictSize
+    dsimp only
+    have hm : 4096 ≤ (if d < 4096 then 4096 else d) ∧ (if d < 4096 then 4096 else d) < 4294967296 := by split <;> omega
+    generalize (if d < 4096 then 4096 else d) = m at *
+    rw [if_neg (by omega)]
+    simp only [Prod.mk.injEq, LzDict.LZ_DICT_REPEAT_MAX, true_and]
+    omega
+  refine ⟨e1, ?_⟩
+  rw [e1]
+  unfold LzDict.allocSize LzDict.roundDictSize Memusage.lzDictAllocSize Memusage.LZ_DICT_REPEAT_MAX
+  simp only [LzDict.LZ_DICT_REPEAT_MAX]
+
+/-- `comp_blk_size(coder)` of the threaded decoder: Compressed Data + Block Padding + Check, as `mtThreaded` has it -/
+theorem comp_blk_size_eq (cs check : Nat) (h : cs + 67 < U64) (hc : check ≤ 15) :
+    Kernels.comp_blk_size cs check = Container.ceil4 cs + Container.checkSize check := by
+  unfold Kernels.comp_blk_size
+  have h1 := (vli_ceil4_eq cs (by unfold U64 at *; omega)).1
+  have h2 := check_size_le check hc
+  rw [← h1, ← check_size_eq]
+  have : Kernels.vli_ceil4 cs ≤ cs + 3 := by unfold Kernels.vli_ceil4; unfold U64 at h; omega
+  unfold U64 at h
+  omega
+
+/-! ## xz: memory limit selection (src/xz/hardware.c, util.c) — C09 -/
+
+/-- `hardware_memlimit_get(mode)` as a function of the mode and of the file-scope variables `memlimit_compress`,
+    `memlimit_decompress` (MODE_COMPRESS = 0) -/
+theorem hardware_memlimit_get_eq (mode mc md : Nat) :
+    Kernels.hardware_memlimit_get mode mc md
+      = XzAdjust.hardwareMemlimitGet (if mode = 0 then .compress else .decompress) mc md := by
+  unfold Kernels.hardware_memlimit_get XzAdjust.hardwareMemlimitGet Memusage.UINT64_MAX
+  by_cases h : mode = 0 <;> simp [h]
+
+/-- `round_up_to_mib` -/
+theorem round_up_to_mib_eq (n : Nat) (h : n < U64) : Kernels.round_up_to_mib n = (n + 1048575) / 1048576 := by
+  unfold U64 at h
+  unfold Kernels.round_up_to_mib
+  split <;> omega
+
+/-- the hash-size computation of `lz_encoder_prepare` (the `hs |= hs >> k` smear and the 2^24 clamp) is the model's `hashMask` -/
+theorem lz_encoder_hash_mask_eq (hb ds : Nat) (h1 : 1 ≤ ds) (h2 : ds < 4294967296) :
+    Kernels.lz_encoder_prepare_if4 hb ds = Memusage.hashMask ds hb := by
+  unfold Kernels.lz_encoder_prepare_if4 Kernels.lz_encoder_prepare_if3 Kernels.lz_encoder_prepare_if2 Memusage.hashMask Memusage.U32
+  have e1 : (ds + 18446744073709551616 - 1) % 18446744073709551616 % 4294967296 = ds - 1 := by omega
+  have e2 : (ds - 1) % 4294967296 = ds - 1 := by omega
+  simp only [e1, e2, Nat.shiftRight_eq_div_pow, Nat.reducePow]
+
+/-- `lz_encoder_prepare(mf, allocator, lz_options)` against the C09 model `Memusage.lzEncoderPrepare`: it returns true
+    exactly where the model answers `none`, and otherwise leaves the model's `size`, `hash_count`, `sons_count` in `*mf`
+    (result components 9, 3, 10), whatever `*mf` held before.  `dict_size` is a `uint32_t`; the three `size_t` members
+    must not make the 64-bit sum `before_size + match_len_max + after_size` wrap (the callers pass 4096 / 65536−dict, 273, 4097). -/
+theorem lz_encoder_prepare_eq (o : Memusage.LzOptions) (m0 m1 m2 m3 m4 m5 m6 m7 m8 m9 : Nat)
+    (hd : o.dictSize < U32) (hsum : o.beforeSize + o.matchLenMax + o.afterSize + 1048576 < U64) :
+    (Kernels.lz_encoder_prepare m0 m1 m2 m3 m4 m5 m6 m7 m8 m9 o.afterSize o.beforeSize o.depth o.dictSize o.matchFinder o.matchLenMax o.niceLen).1
+        = (Memusage.lzEncoderPrepare o).isNone
+    ∧ ∀ s, Memusage.lzEncoderPrepare o = some s →
+        (Kernels.lz_encoder_prepare m0 m1 m2 m3 m4 m5 m6 m7 m8 m9 o.afterSize o.beforeSize o.depth o.dictSize o.matchFinder o.matchLenMax o.niceLen).2.2.2.1 = s.hashCount
+        ∧ (Kernels.lz_encoder_prepare m0 m1 m2 m3 m4 m5 m6 m7 m8 m9 o.afterSize o.beforeSize o.depth o.dictSize o.matchFinder o.matchLenMax o.niceLen).2.2.2.2.2.2.2.2.2.1 = s.size
+        ∧ (Kernels.lz_encoder_prepare m0 m1 m2 m3 m4 m5 m6 m7 m8 m9 o.afterSize o.beforeSize o.depth o.dictSize o.matchFinder o.matchLenMax o.niceLen).2.2.2.2.2.2.2.2.2.2 = s.sonsCount := by
+  obtain ⟨bs, ds, as, mlm, nl, mf, dp⟩ := o
+  simp only at hd hsum ⊢
+  unfold U32 at hd; unfold U64 at hsum
+  unfold Memusage.lzEncoderPrepare Memusage.DICT_SIZE_MIN Memusage.ENC_DICT_SIZE_MAX
+  simp only
+  by_cases hv : (ds ≥ 4096 ∧ ds ≤ 1610612736) ∧ ¬ nl > mlm
+  · obtain ⟨⟨hd1, hd2⟩, hn⟩ := hv
+    have hg : ¬ (¬ (ds ≥ 4096 ∧ ds ≤ 1610612736) ∨ nl > mlm) := by omega
+    have hcond : ¬ ((!decide (ds ≥ 4096 ∧ ds ≤ 1610612736)) = true ∨ nl > mlm) := by
+      simp only [Bool.not_eq_true', decide_eq_false_iff_not]; exact hg
+    rw [if_neg hcond]
+    unfold Kernels.lz_encoder_prepare
+    rw [if_neg hg]
+    by_cases hmf : mf = 3 ∨ mf = 4 ∨ mf = 18 ∨ mf = 19 ∨ mf = 20
+    · have hsup : Memusage.mfSupported mf = true := by
+        unfold Memusage.mfSupported Memusage.MF_HC3 Memusage.MF_HC4 Memusage.MF_BT2 Memusage.MF_BT3 Memusage.MF_BT4
+        simp only [decide_eq_true_eq]; omega
+      simp only [hsup, Bool.not_true, Bool.false_eq_true, if_false]
+      rw [if_neg (by omega)]
+      refine ⟨rfl, ?_⟩
+      intro s hs
+      injection hs with hs
+      subst hs
+      simp only [lz_encoder_hash_mask_eq _ ds (by omega) hd]
+      unfold Kernels.lz_encoder_prepare_if1 Kernels.lz_encoder_prepare_if5 Kernels.lz_encoder_prepare_if6 Kernels.lz_encoder_prepare_if7
+        Kernels.mf_get_hash_bytes Memusage.mfHashBytes Memusage.U32 Memusage.HASH_2_SIZE Memusage.HASH_3_SIZE
+      generalize Memusage.hashMask ds (mf % 16) = H
+      rcases hmf with rfl | rfl | rfl | rfl | rfl <;>
+        simp only [Nat.reduceMod, Nat.reduceDiv, Nat.reduceMul, Nat.reduceGT, Nat.reduceEqDiff, ne_eq, not_false_eq_true, not_true_eq_false,
+          decide_true, decide_false, if_true, if_false, Bool.false_eq_true] <;>
+        refine ⟨?_, ?_, ?_⟩ <;> (repeat' split) <;> first | omega | exact True.intro
+    · have hsup : Memusage.mfSupported mf = false := by
+        unfold Memusage.mfSupported Memusage.MF_HC3 Memusage.MF_HC4 Memusage.MF_BT2 Memusage.MF_BT3 Memusage.MF_BT4
+        simp only [decide_eq_false_iff_not]; omega
+      rw [if_pos (by omega)]
+      simp [hsup]
+  · have hg : ¬ (ds ≥ 4096 ∧ ds ≤ 1610612736) ∨ nl > mlm := by omega
+    unfold Kernels.lz_encoder_prepare
+    rw [if_pos hg]
+    simp only [Bool.not_eq_true', decide_eq_false_iff_not]
+    rw [if_pos hg]
+    simp
+
+/-! ## The call sites of `index_file_size` meet the domain of `index_file_size_eq` (audit item S-8) -/
+
+/-- what every accumulator reachable by `Container.indexAppend` satisfies: the List of Records is at most
+    LZMA_BACKWARD_SIZE_MAX bytes (the last guard of `lzma_index_append`) -/
+def AccOk (a : Container.IndexAcc) : Prop := a.listSize ≤ 17179869184
+
+theorem accOk_init : AccOk {} := by unfold AccOk; decide
+
+theorem container_indexSize_ge (count listSize : Nat) : listSize ≤ Container.indexSize count listSize := by
+  unfold Container.indexSize Container.indexSizeUnpadded Container.ceil4; omega
+
+theorem accOk_append (a a' : Container.IndexAcc) (u c : Nat) (h : Container.indexAppend a u c = .ok a') : AccOk a' := by
+  unfold Container.indexAppend at h
+  by_cases g1 : u < Container.UNPADDED_SIZE_MIN ∨ u > Container.UNPADDED_SIZE_MAX ∨ c > Vli.VLI_MAX
+  · rw [if_pos g1] at h; simp at h
+  · rw [if_neg g1] at h
+    simp only at h
+    by_cases g2 : a.uncompressedSum + c > Vli.VLI_MAX
+    · rw [if_pos g2] at h; simp at h
+    · rw [if_neg g2] at h
+      by_cases g3 : Container.ceil4 a.unpaddedSum + u > Container.UNPADDED_SIZE_MAX
+      · rw [if_pos g3] at h; simp at h
+      · rw [if_neg g3] at h
+        by_cases g4 : Container.indexFileSize 0 (Container.ceil4 a.unpaddedSum + u) (a.count + 1) (a.listSize + (Vli.vliSize u + Vli.vliSize c)) 0 = none
+        · rw [if_pos g4] at h; simp at h
+        · rw [if_neg g4] at h
+          by_cases g5 : Container.indexSize (a.count + 1) (a.listSize + (Vli.vliSize u + Vli.vliSize c)) > Container.BACKWARD_SIZE_MAX
+          · rw [if_pos g5] at h; simp at h
+          · rw [if_neg g5] at h
+            simp only [Except.ok.injEq] at h
+            subst h
+            unfold AccOk
+            have := container_indexSize_ge (a.count + 1) (a.listSize + (Vli.vliSize u + Vli.vliSize c))
+            unfold Container.BACKWARD_SIZE_MAX at g5
+            simp only
+            omega
+
+/-- C02 model: the `index_file_size` call inside `lzma_index_append` (single Stream, no padding), once the preceding guard
+    `compressed_base + unpadded_size ≤ UNPADDED_SIZE_MAX` has passed, is inside the domain of the bridge — so there the
+    translated C function and the model agree unconditionally. -/
+theorem index_file_size_at_container_append (a : Container.IndexAcc) (ha : AccOk a) (u c : Nat)
+    (hg : Container.ceil4 a.unpaddedSum + u ≤ Container.UNPADDED_SIZE_MAX) :
+    Kernels.index_file_size 0 (Container.ceil4 a.unpaddedSum + u) (a.count + 1) (a.listSize + (Vli.vliSize u + Vli.vliSize c)) 0
+      = ofOpt (Container.indexFileSize 0 (Container.ceil4 a.unpaddedSum + u) (a.count + 1) (a.listSize + (Vli.vliSize u + Vli.vliSize c)) 0) := by
+  unfold AccOk at ha
+  unfold Container.UNPADDED_SIZE_MAX at hg
+  have h1 := vli_size_le u
+  have h2 := vli_size_le c
+  rw [vli_size_eq_container] at h1 h2
+  exact (index_file_size_eq 0 _ _ _ 0 (by unfold U64; omega) (by omega)).1
+
+theorem listSize_pos_blocksSize (bs : List Index.Block) (hb : ∀ b ∈ bs, Index.UNPADDED_SIZE_MIN ≤ b.unpadded) :
+    Index.listSize bs = 0 ∨ 8 ≤ Index.blocksSize bs := by
+  cases bs with
+  | nil => left; rfl
+  | cons b r =>
+    right
+    have := hb b (by simp)
+    unfold Index.UNPADDED_SIZE_MIN at this
+    simp only [Index.blocksSize, List.map_cons, List.sum_cons, Index.vliCeil4]
+    omega
+
+/-- C13 specification: the `index_file_size` call of `lzma_index_append` on a VALID index (`Spec.Valid`: in particular
+    the whole file is at most LZMA_VLI_MAX bytes), after the guard `blocksSize + unpadded ≤ UNPADDED_SIZE_MAX`, is inside
+    the domain of the bridge: `compressed_base + stream_padding ≤ LZMA_VLI_MAX − 32` because the last Stream alone
+    occupies at least 32 bytes, and the List of Records is far below 2^63. -/
+theorem index_file_size_at_spec_append (front : Index.Index) (s : Index.StreamRec) (hv : Index.Spec.Valid (front ++ [s])) (u c : Nat)
+    (hg : Index.blocksSize s.blocks + u ≤ Index.UNPADDED_SIZE_MAX) :
+    Kernels.index_file_size (Index.Spec.rawFileSize front) (Index.blocksSize s.blocks + u) (s.blocks.length + 1)
+        (Index.listSize s.blocks + (Index.vliSize u + Index.vliSize c)) s.padding
+      = Index.indexFileSize (Index.Spec.rawFileSize front) (Index.blocksSize s.blocks + u) (s.blocks.length + 1)
+        (Index.listSize s.blocks + (Index.vliSize u + Index.vliSize c)) s.padding := by
+  have hf := hv.fileSize
+  rw [Index.Spec.rawFileSize_append] at hf
+  have hspan : Index.Spec.rawFileSize [s] = s.span := by simp [Index.Spec.rawFileSize]
+  rw [hspan] at hf
+  unfold Index.StreamRec.span Index.StreamRec.compressedSize Index.STREAM_HEADER_SIZE Index.VLI_MAX at hf
+  have hge : Index.listSize s.blocks + 5 ≤ Index.indexSize s.blocks.length (Index.listSize s.blocks) := by
+    unfold Index.indexSize Index.indexSizeUnpadded Index.vliCeil4; omega
+  have hpos := listSize_pos_blocksSize s.blocks (fun b hb => (hv.blocks s (by simp) b hb).1)
+  have h1 := vli_size_le u
+  have h2 := vli_size_le c
+  rw [vli_size_eq_index] at h1 h2
+  unfold Index.UNPADDED_SIZE_MAX at hg
+  exact (index_file_size_eq _ _ _ _ _ (by unfold U64; omega) (by omega)).2
 
 end XzVerif.Kernels
